@@ -1,7 +1,10 @@
 package main
 
 import (
+	_ "github.com/bufbuild/bufverif/checks/c01"
 	_ "github.com/bufbuild/bufverif/checks/c02"
+	_ "github.com/bufbuild/bufverif/checks/c03"
+	_ "github.com/bufbuild/bufverif/checks/c04"
 	_ "github.com/bufbuild/bufverif/checks/c05"
 	_ "github.com/bufbuild/bufverif/checks/c06"
 	_ "github.com/bufbuild/bufverif/checks/c07"
@@ -13,6 +16,7 @@ import (
 	_ "github.com/bufbuild/bufverif/checks/c14"
 	_ "github.com/bufbuild/bufverif/checks/c15"
 	_ "github.com/bufbuild/bufverif/checks/c16"
+	_ "github.com/bufbuild/bufverif/checks/c17"
 	_ "github.com/bufbuild/bufverif/checks/c18"
 	_ "github.com/bufbuild/bufverif/checks/c19"
 	_ "github.com/bufbuild/bufverif/checks/c20"
